@@ -77,7 +77,11 @@ func TestVerifC40(t *testing.T) {
 		}
 		extra += "pprofEncryption: yes\nmetricsEncryption: yes\nplaybackEncryption: yes\nwebrtcEncryption: yes\nrtmpEncryption: optional\nrtspEncryption: optional\n"
 		extra += fmt.Sprintf("rtspsAddress: 127.0.0.1:%d\nrtmpsAddress: 127.0.0.1:%d\n", bbPortBase()+20*int((bbPortCounter.Load()+1)%8)+15, bbPortBase()+20*int((bbPortCounter.Load()+1)%8)+16)
-		extra += "hlsAlwaysRemux: " + []string{"yes", "no"}[round%2] + "\npaths:\n  p0:\n  p1:\n    maxReaders: 2\n  p2:\n    overridePublisher: " + []string{"yes", "no"}[rng0.IntN(2)] + "\n  all_others:\n"
+		extra += "hlsAlwaysRemux: " + []string{"yes", "no"}[round%2] + "\npaths:\n  p0:\n  p1:\n    maxReaders: 2\n  p2:\n    overridePublisher: " + []string{"yes", "no"}[rng0.IntN(2)] + "\n" +
+			// on-demand static sources that pull from this very server: they become ready and fail with the publishers of p0 / p1
+			fmt.Sprintf("  proxy0:\n    source: rtsp://127.0.0.1:%d/p0\n    sourceOnDemand: yes\n    sourceOnDemandStartTimeout: 2s\n    sourceOnDemandCloseAfter: 200ms\n", bbPortBase()+20*int((bbPortCounter.Load()+1)%8)) +
+			fmt.Sprintf("  proxy1:\n    source: rtsp://127.0.0.1:%d/p1\n    sourceOnDemand: yes\n    sourceOnDemandStartTimeout: 1s\n    sourceOnDemandCloseAfter: 100ms\n", bbPortBase()+20*int((bbPortCounter.Load()+1)%8)) +
+			"  all_others:\n"
 		b := bbStart(t, map[string]bool{"rtsp": true, "hls": true, "api": true, "metrics": true, "pprof": true, "rtmp": true, "srt": true, "webrtc": true, "playback": true}, extra)
 		stop := make(chan struct{})
 		var wg sync.WaitGroup
@@ -118,7 +122,13 @@ func TestVerifC40(t *testing.T) {
 				}
 				count("publish-ok")
 				for k := rng.IntN(60); k > 0; k-- {
-					if p.write() != nil {
+					var werr error
+					if k%7 == 0 {
+						werr = p.writeParams(k%14 == 0) // in-band SPS / PPS change: the published description is updated
+					} else {
+						werr = p.write()
+					}
+					if werr != nil {
 						count("publisher-cut-off")
 						break
 					}
@@ -129,7 +139,11 @@ func TestVerifC40(t *testing.T) {
 		}
 		for ri := 0; ri < 4; ri++ {
 			actor(fmt.Sprintf("rd%d", ri), func(_ int, rng interface{ IntN(int) int }) {
-				rd, err := b.bbRead(fmt.Sprintf("p%d", rng.IntN(3)), "", "", true)
+				name := fmt.Sprintf("p%d", rng.IntN(3))
+				if rng.IntN(3) == 0 {
+					name = fmt.Sprintf("proxy%d", rng.IntN(2))
+				}
+				rd, err := b.bbRead(name, "", "", true)
 				if err != nil {
 					count("read-refused")
 					time.Sleep(5 * time.Millisecond)
@@ -153,7 +167,7 @@ func TestVerifC40(t *testing.T) {
 			case 0:
 				api("GET", "/v3/paths/list", "")
 			case 1:
-				api("GET", fmt.Sprintf("/v3/paths/get/p%d", rng.IntN(3)), "")
+				api("GET", "/v3/paths/get/"+[]string{"p0", "p1", "p2", "proxy0", "proxy1"}[rng.IntN(5)], "")
 			case 2:
 				api("GET", "/v3/rtspconns/list", "")
 			case 3:
@@ -285,6 +299,6 @@ func TestVerifC40(t *testing.T) {
 	for _, k := range ks {
 		r.Sample(map[string]any{"operation_outcome": k, "times": ops[k]})
 	}
-	r.Finish("rounds of a real Core (RTSP, RTMP, SRT, WebRTC, HLS, API, playback; metrics and pprof over TLS) under 11 concurrent actors: 3 RTSP publishers and 4 RTSP readers on 3 paths (overriding publishers, reader limit), API queries and session kicks, metrics / pprof scrapes, HLS requests, and a reload actor (path defaults, path add / delete / patch, HLS restart, logger change = everything restarts, write queue size); shutdown while the actors run (even rounds) or after. Oracles: Go race detector (any report with a mediamtx frame), process crash, Core.Close() returns, and no goroutine remains inside mediamtx code after shutdown. non-trivial = distinct (operation, outcome) observed + rounds",
+	r.Finish("rounds of a real Core (RTSP, RTMP, SRT, WebRTC, HLS, API, playback; metrics and pprof over TLS) under 11 concurrent actors: 3 RTSP publishers (with in-band SPS / PPS changes) and 4 RTSP readers on 3 paths (overriding publishers, reader limit) and on 2 on-demand proxy paths whose RTSP sources pull from this server and fail with the publishers, API queries and session kicks, metrics / pprof scrapes, HLS requests, and a reload actor (path defaults, path add / delete / patch, HLS restart, logger change = everything restarts, write queue size); shutdown while the actors run (even rounds) or after. Oracles: Go race detector (any report with a mediamtx frame), process crash, Core.Close() returns, and no goroutine remains inside mediamtx code after shutdown. non-trivial = distinct (operation, outcome) observed + rounds",
 		"client-side errors (refused, cut off, connection reset while a server restarts) are expected and only counted; completion of individual client requests is judged through the goroutines left behind, not through client-side timeouts")
 }
